@@ -368,8 +368,9 @@ fn stitched_case(run: &Run, case: u64) {
     for f in ["x", "f", "new"] {
         spec.insert(format!("/{dname}/{f}"), Node::file(gen_content(&mut rng, 20)));
     }
-    spec.insert(format!("/{dname}/subdir"), Node::dir());
-    spec.insert(format!("/{dname}/subdir/deep"), Node::file(gen_content(&mut rng, 9)));
+    // like the sentinel directory, it has a subdirectory "sub" holding "h"
+    spec.insert(format!("/{dname}/sub"), Node::dir());
+    spec.insert(format!("/{dname}/sub/h"), Node::file(gen_content(&mut rng, 9)));
     for f in ["b", "c", "zz"] {
         spec.insert(format!("/{f}"), Node::file(gen_content(&mut rng, 30)));
     }
@@ -379,76 +380,126 @@ fn stitched_case(run: &Run, case: u64) {
     let o = Opts { hunk: 2, block: 64, cap: 16 };
     let b = cs::backup(cs::local(&arch), &sb.src, o, &[], None);
     assert!(b.clean(), "{}", b.describe());
+    // every second scenario has another interrupted version in between, in which the
+    // subdirectory is gone and later-sorting siblings have appeared: the final version is then
+    // stitched from three bands, and the oldest can contribute /d/sub/h without /d/sub
+    let mut bases: Vec<(std::path::PathBuf, String)> = Vec::new();
+    if (case / 3) % 2 == 1 {
+        let old = spec.clone();
+        spec.retain(|p, _| !tree::is_under(p, &format!("/{dname}/sub")));
+        spec.remove(&format!("/{dname}/f"));
+        for f in ["t", "zlast"] {
+            spec.insert(format!("/{dname}/{f}"), Node::file(gen_content(&mut rng, 12)));
+        }
+        tree::sync_to_disk(Some(&old), &spec, &sb.src).unwrap();
+        let probe = sb.work.join("probe");
+        fmt06::copy_dir(&arch, &probe);
+        let ic = Icept::new(&probe, Mode::Log, 0);
+        let _ = cs::backup(ic.transport(1), &sb.src, o, &[], None);
+        let writes: Vec<usize> = ic.log().iter().filter(|e| e.verb == V::Write).map(|e| e.idx).collect();
+        crate::scratch::rm(&probe);
+        // the later kill points: some hunks of the middle version exist
+        let mut ks: Vec<usize> = writes.iter().rev().take(6).copied().collect();
+        rng.shuffle(&mut ks);
+        for (i, k) in ks.into_iter().take(3).enumerate() {
+            let mid = sb.work.join(format!("mid{i}"));
+            fmt06::copy_dir(&arch, &mid);
+            let ic = Icept::new(&mid, Mode::CrashAt { k, torn: false }, 0);
+            let _ = cs::backup(ic.transport(1), &sb.src, o, &[], None);
+            let raw = fmt06::read_archive(&mid, false);
+            if raw.bands.get(&1).map(|b| b.head.is_some() && !b.complete()).unwrap_or(false) {
+                bases.push((mid, format!("middle version killed before op {k}; ")));
+            } else {
+                crate::scratch::rm(&mid);
+            }
+        }
+    }
+    if bases.is_empty() {
+        bases.push((arch.clone(), String::new()));
+    }
     // the directory becomes a symlink to a directory outside the destination
     let old = spec.clone();
     spec.retain(|p, _| !tree::is_under(p, &format!("/{dname}")));
-    let target = format!("{}{}", "../".repeat(depth), *rng.pick(&["../../outside/dir", "../../outside/dir/sub"]));
+    let target = format!("{}{}", "../".repeat(depth), *rng.pick(&["../../outside/dir", "../../outside/dir", "../../outside/dir/sub"]));
     let target = target.as_str();
     spec.insert(format!("/{dname}"), Node::symlink(target));
     tree::sync_to_disk(Some(&old), &spec, &sb.src).unwrap();
-    // trace, then kill at every point
-    let probe = sb.work.join("probe");
-    fmt06::copy_dir(&arch, &probe);
-    let ic = Icept::new(&probe, Mode::Log, 0);
-    let _ = cs::backup(ic.transport(1), &sb.src, o, &[], None);
-    let trace = ic.log();
-    crate::scratch::rm(&probe);
     let outside0 = watch(&sb.outside);
-    for k in 0..trace.len() {
-        // only kill points that leave a different archive: before a write
-        if trace[k].verb != V::Write {
-            continue;
-        }
-        let work = sb.work.join("w");
-        fmt06::copy_dir(&arch, &work);
-        let ic = Icept::new(&work, Mode::CrashAt { k, torn: false }, 0);
+    let mut kill_points = 0;
+    for (base, base_desc) in &bases {
+        let final_id = fmt06::read_archive(base, false).bands.keys().max().map(|m| m + 1).unwrap_or(0);
+        // trace, then kill at every point
+        let probe = sb.work.join("probe");
+        fmt06::copy_dir(base, &probe);
+        let ic = Icept::new(&probe, Mode::Log, 0);
         let _ = cs::backup(ic.transport(1), &sb.src, o, &[], None);
-        let raw = fmt06::read_archive(&work, false);
-        let Some(nb) = raw.bands.get(&1) else {
-            crate::scratch::rm(&work);
-            continue;
-        };
-        if nb.head.is_none() {
-            crate::scratch::rm(&work);
-            continue;
-        }
-        let model = crate::oracle::stitch_model(&raw, 1);
-        let below_link = model.iter().any(|(_, e)| {
-            e.apath != format!("/{dname}") && tree::is_under(&e.apath, &format!("/{dname}"))
-        }) && model.iter().any(|(_, e)| e.apath == format!("/{dname}") && e.kind == "Symlink");
-        let dest = sb.work.join("dest");
-        let r = cs::restore(cs::local(&work), Some(1), &dest, None, &[], false);
-        run.eval();
-        run.count("stitched_restores_watched", 1);
-        if below_link {
-            run.count("stitched_versions_with_entries_below_a_symlink", 1);
-            run.nontrivial(fnv(format!("{case}:{k}").as_bytes()));
-        }
-        let rp = json!({"stitched": true, "case": case, "k": k});
-        if let Some(p) = &r.panic {
-            run.violation(format!("restore-panic:{}", panic_site(p)), p.clone(), rp);
-        } else if let Some(d) = first_diff(&outside0, &watch(&sb.outside)) {
-            run.violation(
-                "restore-modified-outside-destination:stitched-entry-below-symlink",
-                format!(
-                    "version stitched from a backup killed before op {k} ({}): /{dname} is a symlink to {target} and the older band's entries below it were restored through the link: {d} (restore returned {})",
-                    trace[k].brief(),
-                    r.describe()
-                ),
-                rp,
-            );
-            // repair the sentinel area for the next point
-            crate::scratch::rm(&sb.outside);
-            let fresh = sandbox("c16tmp");
-            fmt06::copy_dir(&fresh.outside, &sb.outside);
+        let trace = ic.log();
+        crate::scratch::rm(&probe);
+        for k in 0..trace.len() {
+            // only kill points that leave a different archive: before a write
+            if trace[k].verb != V::Write {
+                continue;
+            }
+            kill_points += 1;
+            let work = sb.work.join("w");
+            fmt06::copy_dir(base, &work);
+            let ic = Icept::new(&work, Mode::CrashAt { k, torn: false }, 0);
+            let _ = cs::backup(ic.transport(1), &sb.src, o, &[], None);
+            let raw = fmt06::read_archive(&work, false);
+            let Some(nb) = raw.bands.get(&final_id) else {
+                crate::scratch::rm(&work);
+                continue;
+            };
+            if nb.head.is_none() {
+                crate::scratch::rm(&work);
+                continue;
+            }
+            let model = crate::oracle::stitch_model(&raw, final_id);
+            let below_link = model.iter().any(|(_, e)| {
+                e.apath != format!("/{dname}") && tree::is_under(&e.apath, &format!("/{dname}"))
+            }) && model.iter().any(|(_, e)| e.apath == format!("/{dname}") && e.kind == "Symlink");
+            let dest = sb.work.join("dest");
+            let r = cs::restore(cs::local(&work), Some(final_id), &dest, None, &[], false);
+            run.eval();
+            run.count("stitched_restores_watched", 1);
+            if below_link {
+                run.count("stitched_versions_with_entries_below_a_symlink", 1);
+                let bands_used: std::collections::BTreeSet<u32> = model.iter().map(|(b, _)| *b).collect();
+                if bands_used.len() >= 3 {
+                    run.count("stitched_from_three_bands_with_entries_below_a_symlink", 1);
+                }
+                let parents: std::collections::BTreeSet<&str> = model.iter().map(|(_, e)| e.apath.as_str()).collect();
+                if model.iter().any(|(_, e)| tree::is_under(&e.apath, &format!("/{dname}")) && !parents.contains(tree::parent_of(&e.apath))) {
+                    run.count("stitched_versions_with_a_parentless_entry_below_a_symlink", 1);
+                }
+                run.nontrivial(fnv(format!("{case}:{base_desc}{k}").as_bytes()));
+            }
+            let rp = json!({"stitched": true, "case": case, "k": k});
+            if let Some(p) = &r.panic {
+                run.violation(format!("restore-panic:{}", panic_site(p)), p.clone(), rp);
+            } else if let Some(d) = first_diff(&outside0, &watch(&sb.outside)) {
+                run.violation(
+                    "restore-modified-outside-destination:stitched-entry-below-symlink",
+                    format!(
+                        "{base_desc}version stitched from a backup killed before op {k} ({}): /{dname} is a symlink to {target} and an older band's entries below it were restored through the link: {d} (restore returned {})",
+                        trace[k].brief(),
+                        r.describe()
+                    ),
+                    rp,
+                );
+                // repair the sentinel area for the next point
+                crate::scratch::rm(&sb.outside);
+                let fresh = sandbox("c16tmp");
+                fmt06::copy_dir(&fresh.outside, &sb.outside);
+                crate::scratch::rm(&dest);
+                crate::scratch::rm(&work);
+                return;
+            }
             crate::scratch::rm(&dest);
             crate::scratch::rm(&work);
-            return;
         }
-        crate::scratch::rm(&dest);
-        crate::scratch::rm(&work);
     }
-    run.sample(|| json!({"stitched_case": case, "dir_replaced_by_symlink": format!("/{dname} -> {target}"), "kill_points": trace.iter().filter(|e| e.verb == V::Write).count()}));
+    run.sample(|| json!({"stitched_case": case, "dir_replaced_by_symlink": format!("/{dname} -> {target}"), "bases": bases.iter().map(|b| b.1.clone()).collect::<Vec<_>>(), "kill_points": kill_points}));
 }
 
 pub fn run(tier: Tier, replay: Option<Value>) -> i32 {
@@ -483,10 +534,10 @@ pub fn run(tier: Tier, replay: Option<Value>) -> i32 {
         }
     }
     let needs: &[(&str, u64)] = if replay.is_some() { &[] } else {
-        &[("restores_watched", 100), ("refusals_checked", 20), ("symlinks_in_sources", 100), ("stitched_versions_with_entries_below_a_symlink", 3), ("overwrite_restores_meeting_links_left_by_the_earlier_version", 50)]
+        &[("restores_watched", 100), ("refusals_checked", 20), ("symlinks_in_sources", 100), ("stitched_versions_with_entries_below_a_symlink", 3), ("stitched_from_three_bands_with_entries_below_a_symlink", 1), ("overwrite_restores_meeting_links_left_by_the_earlier_version", 50)]
     };
     run.finish(
-        "sandbox {outside/{file,dir/{f,g,sub/h}}, work/{src,arch,dest}}; generated source trees whose symlinks point at the sentinels beside the destination (relative at several depths, absolute), at '..', '../..', '.', '/', other entries of the tree and nothing; each version is restored with 4 selections (all, a subtree, two exclusion sets) x destination {absent, empty, pre-populated, pre-populated + overwrite}; before and after every restore a recursive lstat + content + ctime snapshot of outside/ and of the source must be identical; a pre-populated destination without overwrite must be refused and left identical (incl. ctime). Second part: successive restores into one destination: version A with links to the sentinels, version B in which every such link has become a directory (with children named like the sentinel directory's) or a file; A is restored into a fresh directory and B over it with overwrite (whole, and only a subtree below a former link), and the reverse order; outside/ must stay identical. Third part: versions stitched from a backup killed at every write point after a directory was replaced by a symlink to outside/dir (entries of the older band then lie below the link). Non-trivial = tree with >= 2 symlinks / stitched version with entries below a symlink.",
+        "sandbox {outside/{file,dir/{f,g,sub/h}}, work/{src,arch,dest}}; generated source trees whose symlinks point at the sentinels beside the destination (relative at several depths, absolute), at '..', '../..', '.', '/', other entries of the tree and nothing; each version is restored with 4 selections (all, a subtree, two exclusion sets) x destination {absent, empty, pre-populated, pre-populated + overwrite}; before and after every restore a recursive lstat + content + ctime snapshot of outside/ and of the source must be identical; a pre-populated destination without overwrite must be refused and left identical (incl. ctime). Second part: successive restores into one destination: version A with links to the sentinels, version B in which every such link has become a directory (with children named like the sentinel directory's) or a file; A is restored into a fresh directory and B over it with overwrite (whole, and only a subtree below a former link), and the reverse order; outside/ must stay identical. Third part: versions stitched from a backup killed at every write point after a directory was replaced by a symlink to outside/dir (entries of the older band then lie below the link); in every second scenario another version lies in between, killed at one of its last write points, in which the directory's subdirectory is gone and later-sorting siblings have appeared, so that the final version is stitched from three bands and the oldest contributes an entry whose parent directory is not listed. Non-trivial = tree with >= 2 symlinks / stitched version with entries below a symlink.",
         &["ctime comparison detects chmod/chown/utimes through a link even when values are unchanged", "links in a pre-populated destination are generated only by restoring another version of the same archive into it (the statement scopes hostile input to symlinks the source contained)"],
         None,
         needs,
